@@ -3,7 +3,7 @@
     proofs in Issuance/*.v.  Each theorem is followed by [Print Assumptions]. *)
 From Coq Require Import List Bool Arith Lia NArith.
 From CM Require Import Gen.Consts Issuance.Model Issuance.Proofs Issuance.Invariants Issuance.OwnFault
-  Issuance.NoReissueTL Issuance.NoReissue Issuance.AgreeTL Issuance.Agree Issuance.Refuted Issuance.Check Issuance.SpecLink Issuance.Takeover.
+  Issuance.NoReissueTL Issuance.NoReissue Issuance.AgreeTL Issuance.Agree Issuance.Refuted Issuance.Check Issuance.SpecLink Issuance.Takeover Issuance.ManageTL Issuance.ManageTakeover Issuance.Examples.
 Import ListNotations.
 Close Scope N_scope.
 Open Scope nat_scope.
@@ -113,14 +113,7 @@ Example C01_callers_agree_nontrivial :
     thread_at s 0 th0 /\ thread_at s 1 th1 /\ tpc th0 = PDone ROk /\ tpc th1 = PDone ROk /\
     seen th0 = Some ce /\ seen th1 = Some ce /\ c_due ce = false /\
     length (filter (fun e => match e_op e with OIssS _ => true | _ => false end) es) = 1.
-Proof.
-  destruct (run_chk 0 (init_state [manage_canon; manage_canon] no_sto) (sched ([1;1;1] ++ rep 18 0 ++ rep 10 1)))
-    as [[s es]|] eqn:R; [|vm_compute in R; discriminate].
-  exists s, es. pose proof (run_chk_runs _ _ _ _ _ R) as Hr.
-  vm_compute in R. inversion R; subst s es; clear R.
-  do 3 eexists. split; [exact Hr|]. unfold thread_at; simpl.
-  split; [reflexivity|]. split; [reflexivity|]. repeat split; reflexivity.
-Qed.
+Proof. exact ex_callers_agree_nontrivial. Qed.
 
 (** F4a: as long as no Unlock call itself fails, every reachable state with an unfinished
     request has a step that needs no fault (a waiter is blocked only while a live holder can move) *)
@@ -170,15 +163,32 @@ Example C01_takeover_nontrivial :
     thread_at s 0 th0 /\ thread_at s 1 th1 /\ tpc th0 = PDone RErr /\ flt th0 = true /\
     tpc th1 = PDone ROk /\ flt th1 = false /\
     length (filter (fun e => match e_op e with OIssS _ => true | _ => false end) es) = 2.
-Proof.
-  destruct (run_sok 0 (init_state [renew_canon; renew_canon] due_bundle)
-              (sched [0;0;1;0;0;0;0] ++ [Label 0 FErr true] ++ sched (rep 2 0 ++ rep 12 1)))
-    as [[s es]|] eqn:R; [|vm_compute in R; discriminate].
-  exists s, es. pose proof (run_sok_runs _ _ _ _ _ R) as Hr.
-  vm_compute in R. inversion R; subst s es; clear R.
-  do 2 eexists. split; [exact Hr|]. split; [intros [] ; discriminate|].
-  unfold thread_at; simpl. split; [reflexivity|]. split; [reflexivity|]. repeat split; reflexivity.
-Qed.
+Proof. exact ex_takeover_nontrivial. Qed.
+
+(** F4c for ManageSync (partial: canonical spellings; no fault of any kind inside the Stores of a
+    save of the bundle; no unlocked load of ManageSync overlapping a save [okm] -- the two excluded
+    classes are exactly the known findings, refuted below): the stored key belongs to the stored
+    certificate from the start (or a part is missing); whatever the other requests on the name do
+    and however they fail -- in the issuer, in callbacks, by cancellation or panic, also while they
+    hold the turn -- a ManageSync caller returns an error only if a fault was injected into one of
+    its own operations: it waits, takes its turn, obtains or renews or finds the certificate *)
+Theorem C01_manage_fails_only_by_own_fault_partial : forall cs st n L es s,
+  canon0 n L cs -> stored_match st n -> runs (okm n) (init_state cs st) es s ->
+  forall t th r, thread_at s t th -> touches n (cfg th) -> c_prog (cfg th) = PManage ->
+    tpc th = PDone r -> r <> ROk -> flt th = true.
+Proof. exact manage_fails_only_by_own_fault. Qed.
+Print Assumptions C01_manage_fails_only_by_own_fault_partial.
+
+(** the hypotheses are met by a run in which the leader (ObtainCertSync) panics inside the issuer
+    while a ManageSync caller waits for the lock; the waiter takes over, issues, saves, loads *)
+Example C01_manage_takeover_nontrivial :
+  let cs := [TCfg (PObtain false) 0 0 0 0 false false false false; manage_canon] in
+  canon0 0 0 cs /\ stored_match no_sto 0 /\
+  exists s es th0 th1 ce,
+    runs (okm 0) (init_state cs no_sto) es s /\
+    thread_at s 0 th0 /\ thread_at s 1 th1 /\ tpc th0 = PDone RPanic /\ flt th0 = true /\
+    tpc th1 = PDone ROk /\ flt th1 = false /\ seen th1 = Some ce /\ sto (sh s) (SK 0 KCrt) = Some (VCrt ce).
+Proof. exact ex_manage_takeover_nontrivial. Qed.
 
 (** R: for ManageSync the same statement is false: its first load runs outside the issue lock *)
 Theorem C01_manage_load_races_renew_save_refuted :
@@ -206,16 +216,7 @@ Example C01_hypotheses_nontrivial :
   agree_on_lock cs /\ canon0 0 0 cs /\
   exists s th1 th2, reachable cs no_sto s /\ thread_at s 0 th1 /\ thread_at s 1 th2 /\
     in_span th1 = true /\ tpc th2 = PLockWait.
-Proof.
-  simpl. split; [|split].
-  - intros c1 c2 [<-|[<-|[]]] [<-|[<-|[]]] _; reflexivity.
-  - intros c [<-|[<-|[]]] _; unfold on_key, cert_prog, force_eff; simpl; auto.
-  - destruct (run (init_state [manage_canon; manage_canon] no_sto) (sched (rep 7 0 ++ rep 3 1))) as [[s es]|] eqn:R;
-      [|vm_compute in R; discriminate].
-    exists s. assert (Hr : reachable [manage_canon; manage_canon] no_sto s) by (eapply reachable_run; eauto).
-    vm_compute in R. inversion R; subst s es; clear R.
-    do 2 eexists. split; [exact Hr|]. unfold thread_at; simpl. split; [reflexivity|]. split; [reflexivity|]. auto.
-Qed.
+Proof. exact ex_hypotheses_nontrivial. Qed.
 
 (** tie to the source (translator T, re-read on every run): the statement order the program
     counters follow -- obtainCert: pre-check, checkStorage, acquireLock, and inside the attempt
